@@ -104,6 +104,9 @@ func init() {
 	for _, id := range []string{"C03", "C09", "C11"} {
 		props[id].Harnesses = append(props[id].Harnesses, sso...)
 	}
+	props["C07"].Harnesses = append(props["C07"].Harnesses,
+		HarnessSpec{Name: "VH_C07_decrypt_cert", Replay: "native"},
+		HarnessSpec{Name: "VH_C07_recipient", Replay: "native", Panics: true})
 	rollover := HarnessSpec{Name: "VH_C02_store_rollover", Replay: "native", Unwind: 400}
 	logout := HarnessSpec{Name: "VH_C10_logout_post", Replay: "native", Unwind: 400}
 	for _, id := range []string{"C01", "C02", "C10"} {
